@@ -299,3 +299,76 @@ inst!(c01_local_2x1, 7, mode::<2, 1, 3, 10, 2>());
 inst!(c01_reuse_2x1_then_1x2, 7, reuse::<2, 1, 1, 2, 3, 15>());
 inst!(c01_reuse_2x2_then_1x1, 8, reuse::<2, 2, 1, 1, 2, 15>());
 inst!(c01_reuse_1x1_then_2x2, 8, reuse::<1, 1, 2, 2, 4, 15>());
+
+// ---- concrete substitution table and gap penalties, symbolic clip penalties (per MASK) and symbolic sequences --------------
+// Cheaper than the fully symbolic scheme, so it reaches larger shapes; the scoring schemes are chosen to include an
+// asymmetric table with a positive mismatch score, gap_open = 0, and gap_extend = 0.
+pub const SCHEMES: [([[i32; 2]; 2], i32, i32); 3] = [
+    ([[1, -1], [-1, 1]], -2, -1),
+    ([[2, 1], [-3, -1]], 0, -1),
+    ([[1, -2], [-2, 1]], -1, 0),
+];
+
+#[cfg(kani)]
+pub fn fixed_params<const MASK: u8>(scheme: usize) -> Params {
+    let (table, go, ge) = SCHEMES[scheme];
+    let mut clip = [MIN_SCORE; 4];
+    let mut c = 0;
+    while c < 4 {
+        if MASK & (1 << c) != 0 {
+            let v: i8 = kani::any();
+            kani::assume(v >= -3 && v <= 0);
+            clip[c] = v as i32;
+        }
+        c += 1;
+    }
+    Params { table, gap_open: go, gap_extend: ge, clip }
+}
+
+#[cfg(kani)]
+pub fn custom_fixed<const M: usize, const N: usize, const L: usize, const MASK: u8, const SCHEME: usize>() {
+    let p = fixed_params::<MASK>(SCHEME);
+    let x: [u8; M] = kani::any();
+    let y: [u8; N] = kani::any();
+    let mut al = Aligner::with_capacity_and_scoring(M, N, scoring_of(p));
+    let a = al.custom(&x[..], &y[..]);
+    path_valid(&p, &x, &y, &a, true);
+    competitor_bound::<M, N, L>(&p, &x, &y, a.score);
+    kani::cover!(a.operations.len() >= 1, "non-empty path");
+    core::mem::forget(al);
+    core::mem::forget(a);
+}
+
+/// semiglobal()/local()/global() then custom() on the same object, concrete scheme: the wrapper must restore the aligner's
+/// own clip penalties (observed through the following custom() call being optimal + valid under the ORIGINAL penalties).
+#[cfg(kani)]
+pub fn restore_fixed<const M: usize, const N: usize, const L: usize, const MASK: u8, const SCHEME: usize, const MODE: u8>() {
+    let p = fixed_params::<MASK>(SCHEME);
+    let x: [u8; M] = kani::any();
+    let y: [u8; N] = kani::any();
+    let mut al = Aligner::with_capacity_and_scoring(M, N, scoring_of(p));
+    let a = match MODE {
+        0 => al.global(&x[..], &y[..]),
+        1 => al.semiglobal(&x[..], &y[..]),
+        _ => al.local(&x[..], &y[..]),
+    };
+    core::mem::forget(a);
+    let b = al.custom(&x[..], &y[..]);
+    path_valid(&p, &x, &y, &b, true);
+    competitor_bound::<M, N, L>(&p, &x, &y, b.score);
+    kani::cover!(b.operations.len() >= 1, "non-empty path");
+    core::mem::forget(al);
+    core::mem::forget(b);
+}
+
+inst!(c01_fixed_1x1_k15_s0, 6, custom_fixed::<1, 1, 2, 15, 0>());
+inst!(c01_fixed_1x1_k1_s0, 6, custom_fixed::<1, 1, 2, 1, 0>());
+inst!(c01_fixed_1x2_k15_s1, 7, custom_fixed::<1, 2, 3, 15, 1>());
+inst!(c01_fixed_2x2_k15_s0, 8, custom_fixed::<2, 2, 4, 15, 0>());
+inst!(c01_fixed_2x2_k0_s1, 8, custom_fixed::<2, 2, 4, 0, 1>());
+inst!(c01_fixed_2x2_k5_s2, 8, custom_fixed::<2, 2, 4, 5, 2>());
+inst!(c01_fixed_2x2_k10_s1, 8, custom_fixed::<2, 2, 4, 10, 1>());
+inst!(c01_fixed_3x3_k15_s0, 10, custom_fixed::<3, 3, 6, 15, 0>());
+inst!(c01_restore_1x2_k4_s0_semi, 7, restore_fixed::<1, 2, 3, 4, 0, 1>());
+inst!(c01_restore_1x2_k5_s0_local, 7, restore_fixed::<1, 2, 3, 5, 0, 2>());
+inst!(c01_restore_1x1_k15_s0_global, 6, restore_fixed::<1, 1, 2, 15, 0, 0>());
